@@ -306,6 +306,12 @@ func main() {
 			g.add("unm " + hx.Hex([]byte(jc.text)))
 			g.add(fmt.Sprintf("doc %s %s corner", hx.Hex([]byte(jc.text)), hx.Hex([]byte(jc.want))))
 		}
+		// literal forms of big.Int.SetString that the lexer splits into two tokens
+		for _, t := range []string{"0b1", "0B1", "0o7", "0O7", "0X1f", "1_000", "0x_1", "0_7", "0x1_f", "[0b1]", "{a: 0o7}", "-0b1", "1_", "0xg"} {
+			g.add("tojson " + hx.Hex([]byte(t)))
+			g.add("unm " + hx.Hex([]byte(t)))
+			rep.Count("go-literal-corner")
+		}
 		for _, t := range rfcCorners {
 			g.add("tojson " + hx.Hex([]byte(t)))
 			g.add("unm " + hx.Hex([]byte(t)))
